@@ -179,7 +179,7 @@ func zvec(v []float64, k int) string {
 	return cellCoq(c) + "%Z"
 }
 
-var exportFmts = []string{"ply-ascii", "ply-binary", "obj", "stl", "gltf"}
+var exportFmts = []string{"ply-ascii", "ply-binary", "obj", "stl", "gltf", "obj-mtl", "obj-named", "gltf-text"}
 
 func fmtNo(f string) int {
 	for i, s := range exportFmts {
@@ -401,6 +401,13 @@ func apply(op Op, pool []modeling.Mesh) (ms []modeling.Mesh, status string, coq 
 				err = obj.WriteMesh(m, "", &buf)
 			case "stl":
 				err = stl.WriteMesh(&buf, m)
+			case "obj-mtl":
+				err = obj.WriteMaterialsFromMesh(m, &buf)
+			case "obj-named":
+				err = obj.WriteMeshes([]obj.ObjMesh{{Name: "a", Mesh: m}, {Name: "b", Mesh: m}}, "m.mtl", &buf)
+			case "gltf-text":
+				mm := m
+				err = gltf.WriteText(gltf.PolyformScene{Models: []gltf.PolyformModel{{Name: "m", Mesh: &mm}}}, &buf)
 			default:
 				mm := m
 				err = gltf.WriteBinary(gltf.PolyformScene{Models: []gltf.PolyformModel{{Name: "m", Mesh: &mm}}}, &buf)
